@@ -1311,8 +1311,18 @@ impl Ranking {
                 }
                 run_search(id, q);
                 let got_r: Hits = using_results(id, |b| b.iter().map(|r| (r.id, r.title.clone())).collect());
+                // ... and once more after the store was emptied in place: no records, no list (whatever was listed before)
+                using_store(id, |s| s.clear());
+                run_search(id, q);
+                let got_emptied: Hits = using_results(id, |b| b.iter().map(|r| (r.id, r.title.clone())).collect());
                 destroy_store(id);
                 cx.eval();
+                if !got_emptied.is_empty() {
+                    hist.push("using_store(|s| s.clear())".to_string());
+                    cx.fail("empty-query-list", json!({"lang": lang, "records": Vec::<Rec>::new(), "limit": limit, "query": q, "got": got_emptied, "errors": [format!("length {} != min(limit, records) = 0", got_emptied.len())], "round": round,
+                        "through_the_registry": hist, "note": "the store was emptied in place (Store::clear through using_store) right before this search"}));
+                    return;
+                }
                 cx.count("empty-query lists read through the registry");
                 if how > 0 {
                     cx.count("registry stores whose limit was written through using_store");
@@ -1405,7 +1415,7 @@ pub fn function_words(lang: &str) -> Vec<&'static str> {
         "pt" => vec!["o", "a", "de", "e", "com", "para", "em", "um", "uma", "os", "as", "além", "até", "atrás", "próximo", "então", "porém"],
         "ru" => vec!["и", "в", "на", "с", "для", "не", "же", "по", "а", "но", "путём"],
         "xk" => vec!["の", "が"],
-        "xr" => vec!["zu", "av", "på", "außer"],
+        "xr" => vec!["zu", "av", "på", "außer", "pe"],
         _ => vec![],
     }
 }
